@@ -1303,6 +1303,27 @@ func noNarrowingOfParsedNumbers(c *Ctx, rule string) {
 			}
 			return true
 		})
+		// … and integers the JSON decoder fills in (json.Unmarshal(data, &n), dec.Decode(&n)), at their own width
+		ast.Inspect(fd.Body, func(x ast.Node) bool {
+			call, ok := x.(*ast.CallExpr)
+			if !ok {
+				return true
+			}
+			fn := calleeOf(info, call)
+			if fn == nil || (fullName(fn) != "encoding/json.Unmarshal" && fullName(fn) != "encoding/json.(Decoder).Decode") {
+				return true
+			}
+			for _, a := range call.Args {
+				if u, ok := ast.Unparen(a).(*ast.UnaryExpr); ok && u.Op == token.AND {
+					if id, ok := ast.Unparen(u.X).(*ast.Ident); ok {
+						if w := width(info.TypeOf(id)); w > 0 {
+							parsed[info.ObjectOf(id)] = w
+						}
+					}
+				}
+			}
+			return true
+		})
 		if len(parsed) == 0 {
 			continue
 		}
